@@ -123,11 +123,13 @@ def oracle_file(case):
     vsec = [lastext.item("VERS", "", "1.2" if v12 else "2.0", "v"), lastext.item("WRAP", "", "NO", "w"), it("XV")]
     wsec = [lastext.item("STRT", "M", "1", ""), lastext.item("STOP", "M", "2", ""), lastext.item("STEP", "M", "1", ""),
             lastext.item("NULL", "", "-999.25", "")] + [it(m) for m in names]
-    secs = [lastext.section("V", "~Version", vsec), lastext.section("W", "~Well", wsec),
-            lastext.section("C", "~Curves", [lastext.item("DEPT", "M", "", "d")] + ([it("GR")] if ".." not in s else [])),
-            lastext.section("P", "~Parameter", [it(m) for m in names]),
-            lastext.section("X", "~Extra", [it(m) for m in names]),
-            lastext.section("A", "~A", [lastext.row(["1"] if ".." in s else ["1", "2"])], ncols=1 if ".." in s else 2)]
+    # section titles in either letter case: which values convert depends on the KIND of the section, not on its spelling
+    T = (lambda t: t.lower()) if case.get("titles") == "lower" else (lambda t: t)
+    secs = [lastext.section("V", T("~Version"), vsec), lastext.section("W", T("~Well"), wsec),
+            lastext.section("C", T("~Curves"), [lastext.item("DEPT", "M", "", "d")] + ([it("GR")] if ".." not in s else [])),
+            lastext.section("P", T("~Parameter"), [it(m) for m in names]),
+            lastext.section("X", T("~Extra"), [it(m) for m in names]),
+            lastext.section("A", T("~A"), [lastext.row(["1"] if ".." in s else ["1", "2"])], ncols=1 if ".." in s else 2)]
     spec = {"nl": "\n", "final_nl": True, "sections": secs}
     mc = case.get("mnemonic_case", "preserve")
     las = read_spec(spec, mnemonic_case=mc)
@@ -138,7 +140,7 @@ def oracle_file(case):
         out.fail("file-read-raises|" + las.bucket, "%s\n%s" % (las, spec_summary(spec)))
         return out
     for key, convert_named in (("Version", True), ("Well", False), ("Parameter", True), ("Extra", False)):
-        sec = las.sections.get(key)
+        sec = las.sections.get(key if key != "Extra" else T("~Extra")[1:])
         if sec is None or isinstance(sec, str):
             out.fail("file-section-missing", "section %s missing\n%s" % (key, spec_summary(spec)))
             continue
@@ -169,6 +171,8 @@ def named_files(tier):
                 if v12 and mc != "preserve":
                     continue  # LAS 1.2 (value after the colon in ~W): one mnemonic_case is enough
                 yield {"file": 1, "s": s, "mnemonic_case": mc, "v12": v12}
+                if mc == "preserve":
+                    yield {"file": 1, "s": s, "mnemonic_case": mc, "v12": v12, "titles": "lower"}
     # 1/50 sample of the short-string space
     for i, c in enumerate(strings("quick" if tier == "quick" else "quick")):
         if i % (50 if tier == "thorough" else 400) == 7 and ":" not in c["s"]:
